@@ -135,7 +135,10 @@ def make_jobs(chosen, tier, rng, seed):
                 j["files"].append(f)
                 continue
         j = {"id": len(jobs) + 1, "upload": i % 2 == 0, "binary": (i // 2) % 2 == 0, "proto": c["proto"],
-             "seed": seed * 100003 + i, "timeout": 10 if c["stuck"] else 30, "files": [f]}
+             "seed": seed * 100003 + i, "timeout": 10 if c["stuck"] else 30, "files": [f],
+             # half of the runs in directory mode (-r / -d): the names travel as JSON documents and the receiver goes
+             # through the directory-capable create path (for protocol 2 too)
+             "dirmode": (i // 4) % 2 == 0}
         jobs.append(j)
         if pair:
             pend[c["proto"]] = j
